@@ -305,6 +305,25 @@ package mobius
 //@   before call hotline.NewTransaction assert arg0[0] == 0 && arg0[1] == 118 && arg1 == c.ID
 //@   before call hotline.NewField#1 assert arg0[0] == 0 && arg0[1] == 114 && same(arg1, reqdata(0, 114))
 
+// every member of the chat is sent its copy: each completed iteration of the fan-out loop built a
+// transaction for the member it visited (membership of a private chat is the only condition --
+// the chat privileges govern public chat and chat creation)
+//@ func HandleJoinChat(cc *hotline.ClientConn, t *hotline.Transaction) (res []hotline.Transaction)
+//@   property C12
+//@   loop 1 reaches hotline.NewTransaction
+//@ func HandleLeaveChat(cc *hotline.ClientConn, t *hotline.Transaction) (res []hotline.Transaction)
+//@   property C12
+//@   loop 1 reaches hotline.NewTransaction
+//@ func HandleSetChatSubject(cc *hotline.ClientConn, t *hotline.Transaction) (res []hotline.Transaction)
+//@   property C12
+//@   loop 1 reaches hotline.NewTransaction
+//@ func HandleRejectChatInvite(cc *hotline.ClientConn, t *hotline.Transaction) (res []hotline.Transaction)
+//@   property C12
+//@   before call (hotline.ChatManager).Members assert bytes(arg1) == bytes(reqdata(0, 114))[0:4]
+//@   before call hotline.NewTransaction assert arg0[0] == 0 && arg0[1] == 106 && arg1 == c.ID
+//@   before call hotline.NewField#1 assert arg0[0] == 0 && arg0[1] == 114
+//@   loop 1 reaches hotline.NewTransaction
+
 //@ func HandleSetChatSubject(cc *hotline.ClientConn, t *hotline.Transaction) (res []hotline.Transaction)
 //@   property C12
 //@   before call (hotline.ChatManager).Members assert bytes(arg1) == bytes(reqdata(0, 114))[0:4]
@@ -353,6 +372,10 @@ package mobius
 //@ func HandleNewFolder(cc *hotline.ClientConn, t *hotline.Transaction) (res []hotline.Transaction)
 //@   property C11
 //@   before call (hotline.FileStore).Mkdir assert callres("os.IsNotExist") && arg1 == callarg("(hotline.FileStore).Stat", 1)
+// the folder is created where every other file request resolves the same path bytes: ReadPath
+// decodes the whole joined path (root, path items, name) from Mac Roman, and so does this handler
+//@   before call (*golang.org/x/text/encoding.Decoder).String assert arg1 == callres("path.Join")
+//@   before call (hotline.FileStore).Stat assert arg1 == callres("(*golang.org/x/text/encoding.Decoder).String", 0)
 
 //@ func HandleSetFileInfo(cc *hotline.ClientConn, t *hotline.Transaction) (res []hotline.Transaction)
 //@   property C11
@@ -453,6 +476,18 @@ package mobius
 //@   before call hotline.NewField#6 assert arg0[0] == 1 && arg0[1] == 79 && ptsto(arg1, art.ParentArt) && len(arg1) == 4
 //@   before call hotline.NewField#7 assert arg0[0] == 1 && arg0[1] == 80 && ptsto(arg1, art.FirstChildArt) && len(arg1) == 4
 //@   before call hotline.NewField#9 assert arg0[0] == 1 && arg0[1] == 77 && bytes(arg1) == bytes(art.Data)
+
+// C13: when an account edit changes what the server stores for a logged-in user (the admin flag
+// follows the new privileges), everybody is told: each visited connection of the edited account is
+// announced, with its own ID, stored flags, name and icon.
+//@ func HandleSetUser(cc *hotline.ClientConn, t *hotline.Transaction) (res []hotline.Transaction)
+//@   property C13
+//@   loop 1 reaches (*hotline.ClientConn).SendAll when c.Account.Login == login
+//@   before call (*hotline.ClientConn).SendAll assert arg1[0] == 1 && arg1[1] == 45
+//@   before call hotline.NewField assert arg0[0] == 0 && arg0[1] == 112 ==> ptsto(arg1, c.Flags) && len(arg1) == 2
+//@   before call hotline.NewField assert arg0[0] == 0 && arg0[1] == 103 ==> ptsto(arg1, c.ID) && len(arg1) == 2
+//@   before call hotline.NewField assert arg0[0] == 0 && arg0[1] == 102 ==> same(arg1, c.UserName)
+//@   before call hotline.NewField assert arg0[0] == 0 && arg0[1] == 104 ==> same(arg1, c.Icon)
 
 // C13: a private message is addressed to the user holding the requested ID, honours THAT user's
 // refuse-private-messages flag (flag 2 of the recipient's flag word) -- the refusal notice goes back
@@ -823,6 +858,16 @@ package mobius
 //@   before call hotline.NewField assert arg0[0] == 0 && arg0[1] == 104 ==> same(arg1, cc.Icon)
 //@   before call hotline.NewField assert arg0[0] == 0 && arg0[1] == 103 ==> ptsto(arg1, cc.ID) && len(arg1) == 2
 //@   before call hotline.NewField assert arg0[0] == 0 && arg0[1] == 112 ==> ptsto(arg1, cc.Flags) && len(arg1) == 2
+
+// C05: the display name changes only under the any-name privilege (26): every store to the
+// connection's name in these two handlers happens with that privilege held, or stores the
+// account's own name.
+//@ func HandleSetClientUserInfo(cc *hotline.ClientConn, t *hotline.Transaction) (res []hotline.Transaction)
+//@   property C05
+//@   before store ClientConn.UserName assert target == cc && priv(cc, 26)
+//@ func HandleTranAgreed(cc *hotline.ClientConn, t *hotline.Transaction) (res []hotline.Transaction)
+//@   property C05
+//@   before store ClientConn.UserName assert target == cc && (priv(cc, 26) || bytes(val) == bytes(cc.Account.Name))
 
 //@ func HandleSetClientUserInfo(cc *hotline.ClientConn, t *hotline.Transaction) (res []hotline.Transaction)
 //@   property C05 C13
